@@ -9,6 +9,7 @@ import (
 
 	sdk "github.com/cosmos/cosmos-sdk/types"
 	"github.com/cosmos/cosmos-sdk/types/query"
+	banktypes "github.com/cosmos/cosmos-sdk/x/bank/types"
 
 	ophosttypes "github.com/initia-labs/OPinit/x/ophost/types"
 
@@ -35,6 +36,10 @@ type c10Sys struct{}
 
 type c10Create struct{}
 type c10Restart struct{}
+type c10Send struct {
+	b     uint64
+	denom string
+}
 type c10Deposit struct {
 	b      uint64
 	denom  string
@@ -86,6 +91,10 @@ func (c10Sys) Letters(s *c10State) []engine.Letter {
 		ls = append(ls, engine.Letter{Name: fmt.Sprintf("Deposit(b%d,1uxx,by=unfunded)", b), Data: c10Deposit{b, "uxx", 1, "l2addr", nil, "stranger"}})
 	}
 	ls = append(ls, engine.Letter{Name: "RestartViaGenesis", Data: c10Restart{}})
+	// plain bank transfers to escrow addresses: a bridge that already holds a denom nobody has deposited
+	// yet, and coins waiting at the address of a bridge that does not exist yet
+	ls = append(ls, engine.Letter{Name: "BankSend(alice->escrow1,1uyy)", Data: c10Send{1, "uyy"}})
+	ls = append(ls, engine.Letter{Name: "BankSend(alice->escrow2,1uxx)", Data: c10Send{2, "uxx"}})
 	return ls
 }
 
@@ -94,6 +103,12 @@ func (c10Sys) Step(s *c10State, l engine.Letter) (*c10State, string, *engine.Vio
 	c := &c10State{ctx: ctx, w: s.w, b: s.b}
 	before := s.w.Digest(s.ctx)
 	switch d := l.Data.(type) {
+	case c10Send:
+		res := s.w.Deliver(ctx, banktypes.NewMsgSend(world.Addr("alice"), ref.BridgeAddress(d.b), sdk.NewCoins(world.Coin(d.denom, 1))))
+		if !res.OK() {
+			return c, "rejected", nil
+		}
+		return c, "ok", nil
 	case c10Restart:
 		if err := s.w.RestartViaGenesis(ctx); err != nil {
 			return c, "error", viol("sequences-and-pairs-survive-a-restart", "export / validate / import of the module genesis failed: %v", err)
@@ -271,13 +286,13 @@ func init() {
 	register(&Check{ID: "C10", Level: "model_checking",
 		Run: func(rc *engine.RunCtx) *engine.Result {
 			res := engine.NewResult()
-			rep, err := engine.Explore[*c10State](c10Sys{}, opts(rc, pick(rc, 7, 10)))
+			rep, err := engine.Explore[*c10State](c10Sys{}, opts(rc, pick(rc, 6, 9)))
 			if err != nil {
 				res.HarnessErr = err
 				return res
 			}
 			res.Absorb("c10", rep)
-			res.Coverage["alphabet"] = "CreateBridge (ids 2,3 created mid-history); Deposit(b∈{1,2,3}, denom∈{uxx,uyy}, amt∈{0,1}; on bridge 1 also two 82-character denoms that share their first 80 characters; (to,data)∈{(short,∅),(long non-ASCII,bytes)}, sender∈{funded, unfunded})"
+			res.Coverage["alphabet"] = "CreateBridge (ids 2,3 created mid-history); Deposit(b∈{1,2,3}, denom∈{uxx,uyy}, amt∈{0,1}; on bridge 1 also two 82-character denoms that share their first 80 characters; (to,data)∈{(short,∅),(long non-ASCII,bytes)}, sender∈{funded, unfunded}); plain bank transfers to the escrow address of bridge 1 (a denom not deposited yet) and of bridge 2 (before and after its creation)"
 			res.Coverage["oracle"] = "accepted ⇒ bridge exists, response sequence = per-bridge model counter, exactly one initiate_token_deposit event whose 8 attributes equal the request, sender/escrow balances moved by the amount, pair = independent L2-denom derivation and never changes; NextL1Sequence / TokenPairs (whole and paged) / TokenPairByL1Denom / TokenPairByL2Denom queries = model in every state; a created bridge has nothing pre-recorded; rejected ⇒ digest unchanged"
 			res.Assumptions = []string{"3 bridge ids, 2 denoms, amounts 0 and 1"}
 			for _, k := range []string{"Deposit/accepted", "Deposit/rejected", "CreateBridge/accepted"} {
